@@ -491,14 +491,15 @@ def run_carriers(case: Dict) -> Dict:
     confirmed = []
     n = 0
     for _rep in range(case["reps"]):
-        D, N = rng.choice([(1, 5), (2, 4), (2, 7), (3, 5), (4, 6)])
+        D, N = rng.choice([(1, 5), (2, 4), (2, 7), (3, 5), (4, 6), (8, 5), (9, 4), (8, 6)])
         hi = rng.choice([2, 120, 250])
         keys = [[rng.randrange(hi + 1) for _ in range(N)] for _ in range(D)]
         for cname, mk in (
             ("2-d uint8 array", lambda: numpy.array(keys, dtype=numpy.uint8)), ("2-d int8 array", lambda: numpy.array(keys, dtype=numpy.uint8).astype(numpy.int8) if hi <= 120 else None),
             ("tuple of uint8 rows", lambda: tuple(numpy.array(r_, dtype=numpy.uint8) for r_ in keys)), ("list of uint16 rows", lambda: [numpy.array(r_, dtype=numpy.uint16) for r_ in keys]),
             ("nested lists", lambda: [list(r_) for r_ in keys]), ("Fortran-ordered int64", lambda: numpy.asfortranarray(numpy.array(keys, dtype=numpy.int64))),
-            ("float64 array", lambda: numpy.array(keys, dtype=float)), ("uint32 transposed view", lambda: numpy.array(keys, dtype=numpy.uint32).T.copy().T),
+            ("float64 array", lambda: numpy.array(keys, dtype=float)),
+            ("object array of python ints", lambda: numpy.array(keys, dtype=object)), ("uint32 transposed view", lambda: numpy.array(keys, dtype=numpy.uint32).T.copy().T),
         ):
             k_ = mk()
             if k_ is None:
@@ -514,6 +515,19 @@ def run_carriers(case: Dict) -> Dict:
                         ok, detail = False, "glexsort(%s = %s, graded=%s, reverse=%s) raises %s: %s" % (cname, keys, g, r_, type(e).__name__, str(e)[:80])
                     if not ok and len(confirmed) < 3:
                         confirmed.append({"kind": "order", "op": "glexsort-carrier", "detail": detail, "signature": "glexsort-carrier|%s" % cname, "values": {}, "preconfirmed": True})
+    # python integers beyond 64 bits (object keys): exact order
+    big = [[2 ** 64 + 1, 2 ** 64, 7, 2 ** 64 + 1], [3, 2 ** 70, 2 ** 70 + 1, 1]]
+    for g in (False, True):
+        for r_ in (False, True):
+            n += 1
+            try:
+                out = numpy.asarray(numpoly.glexsort(numpy.array(big, dtype=object), graded=g, reverse=r_))
+                ok = ref_sorted(numpy.array(big, dtype=object), g, r_, out.tolist())
+                detail = "glexsort(object array %s, graded=%s, reverse=%s) -> %s is not a sorting permutation" % (big, g, r_, out.tolist())
+            except Exception as e:
+                ok, detail = True, ""  # refusing object keys is not this property's business
+            if not ok and len(confirmed) < 3:
+                confirmed.append({"kind": "order", "op": "glexsort-carrier", "detail": detail, "signature": "glexsort-carrier|bigint", "values": {}, "preconfirmed": True})
     return {"case": case, "paths": 1, "exhausted": True, "nontrivial": True, "path_log": [{"native_calls": n}], "confirmed": confirmed, "unconfirmed": [], "raw_issues": len(confirmed),
             "stats": {"validity_queries": 0, "decisions": n}, "fidelity_runs": n, "wall_s": time.time() - t0}
 
